@@ -118,12 +118,14 @@ func (s *State) Assume(t *T) {
 // ---------------- obligations ----------------
 
 type Query struct {
-	PC    []*T
-	Goal  *T
-	Heap  map[string]*T
-	Trace []string
-	Pos   string
-	Fn    *ssa.Function // top-level function (for replay)
+	PC     []*T
+	Goal   *T
+	Heap   map[string]*T
+	Trace  []string
+	Pos    string
+	Fn     *ssa.Function // top-level function (for replay)
+	Reveal map[string]bool
+	Props  map[string]bool // property scope of the run that produced the query
 	// results
 	Status string // unsat sat unknown timeout error trivial
 	Solver string
@@ -177,6 +179,9 @@ type loopInfo struct {
 	Ord    int
 	Blocks map[*ssa.BasicBlock]bool
 	Spec   *LoopSpec
+	// invariants supplied by an enclosing (inlining) frame's contract, evaluated in that frame
+	Up      *LoopSpec
+	UpFrame *Frame
 }
 
 type Frame struct {
@@ -228,12 +233,25 @@ func (ex *Ex) oblige(fr *Frame, st *State, name, kind string, props []string, te
 		ex.Obls[name] = o
 		ex.OblOrder = append(ex.OblOrder, name)
 	}
-	q := &Query{PC: append([]*T(nil), st.pc...), Goal: goal, Heap: copyHeap(st.heap), Trace: append([]string(nil), st.trace...), Pos: ex.pos(pos), Fn: ex.Top.Fn}
+	q := &Query{PC: append([]*T(nil), st.pc...), Goal: goal, Heap: copyHeap(st.heap), Trace: append([]string(nil), st.trace...), Pos: ex.pos(pos), Fn: ex.Top.Fn, Reveal: ex.revealSet(), Props: ex.Props}
 	if goal.IsTrue() {
 		q.Status = "trivial"
 	}
 	o.Queries = append(o.Queries, q)
 	st.Assume(goal)
+}
+
+func (ex *Ex) revealSet() map[string]bool {
+	m := map[string]bool{}
+	if ex.Top != nil && ex.Top.Ctr != nil {
+		for _, n := range ex.Top.Ctr.Reveal {
+			m[n] = true
+		}
+		for _, n := range ex.Top.Ctr.Conceal {
+			m["!"+n] = true
+		}
+	}
+	return m
 }
 
 func copyHeap(h map[string]*T) map[string]*T {
@@ -312,6 +330,9 @@ func instrKindClass(i ssa.Instruction) string {
 	case *ssa.Call:
 		if x.Call.IsInvoke() {
 			return "invoke"
+		}
+		if c := x.Call.StaticCallee(); c != nil && c.String() == "github.com/cockroachdb/redact.Safe" {
+			return "safe"
 		}
 		return "call"
 	case *ssa.Store:
@@ -396,6 +417,19 @@ func (ex *Ex) newFrame(fn *ssa.Function, parent *Frame) *Frame {
 	if fr.Ctr != nil {
 		for _, li := range fr.Loops {
 			li.Spec = fr.Ctr.Loops[li.Ord]
+		}
+	}
+	for a := parent; a != nil; a = a.Parent {
+		if a.Ctr == nil || a.Ctr.InlineLoops == nil {
+			continue
+		}
+		if m := a.Ctr.InlineLoops[fn.Name()]; m != nil {
+			for _, li := range fr.Loops {
+				if li.Up == nil && m[li.Ord] != nil {
+					li.Up = m[li.Ord]
+					li.UpFrame = a
+				}
+			}
 		}
 	}
 	return fr
@@ -803,6 +837,8 @@ func (ex *Ex) termOf(fr *Frame, st *State, v Val, t types.Type) *T {
 	switch {
 	case v.T != nil:
 		return v.T
+	case v.Origin != nil && v.Back == 0 && v.Ptr == nil && v.Fn == nil && v.Tuple == nil:
+		return ex.loadFrom0(fr, st, Val{Ptr: v.Origin}, v.Origin.Pointee, nil).T
 	case v.Back != 0:
 		arr := st.cells[v.Back]
 		es := w.SortOf(v.BackElem)
@@ -820,7 +856,9 @@ func (ex *Ex) termOf(fr *Frame, st *State, v Val, t types.Type) *T {
 		if len(v.Fn.Bindings) == 0 {
 			return App("fn$"+mangle(w.funcName(v.Fn.Fn)), SFn)
 		}
-		return ex.FreshVar("closure", SFn)
+		cv := ex.FreshVar("closure", SFn)
+		st.Assume(Not(Eq(cv, App("nil$Fn", SFn))))
+		return cv
 	case v.Tuple != nil:
 		unsupp("tuple used as term")
 	}
@@ -949,7 +987,7 @@ func (ex *Ex) ifaceTypeFact(v *T, t types.Type) *T {
 
 func (ex *Ex) loadFrom(fr *Frame, st *State, addr Val, t types.Type, ins ssa.Instruction) Val {
 	r := ex.loadFrom0(fr, st, addr, t, ins)
-	if t != nil && isSliceT(t) && addr.Ptr != nil && addr.Ptr.Snap == nil && (addr.Ptr.Cell > 0 || addr.Ptr.Global != nil) {
+	if t != nil && isSliceT(t) && addr.Ptr != nil && addr.Ptr.Snap == nil && (addr.Ptr.Cell > 0 || addr.Ptr.Global != nil || (addr.Ptr.Ref != nil && len(addr.Ptr.Path) > 0)) {
 		r.Origin = addr.Ptr
 	}
 	if r.T != nil && t != nil {
@@ -1258,7 +1296,9 @@ func (ex *Ex) convert(fr *Frame, st *State, x *ssa.Convert) Val {
 	tv := ex.termOf(fr, st, v, from)
 	// []byte <-> string
 	if isString(from) && isSliceT(to) {
-		return Val{T: App("bytesOf", ts, tv)}
+		bs := App("bytesOf", ts, tv)
+		st.Assume(And(Eq(ex.W.SliceLen(bs), App("str.len", SInt, tv)), Not(ex.W.SliceIsNil(bs))))
+		return Val{T: bs}
 	}
 	if isSliceT(from) && isString(to) {
 		return Val{T: App("stringOf$"+fs.Mangle(), SString, tv)}
@@ -1424,6 +1464,17 @@ func (ex *Ex) indexAddr(fr *Frame, st *State, x *ssa.IndexAddr) {
 		}
 		sv := ex.termOf(fr, st, base, x.X.Type())
 		ex.panicCheck(fr, st, "index", x, "slice index out of range", And(Ge(idx, IntLit(0)), Lt(idx, w.SliceLen(sv))))
+		if p, isParam := x.X.(*ssa.Parameter); isParam && base.Origin == nil {
+			// a slice parameter whose elements are written: copy it into a local cell (the caller's
+			// view of the backing array is not modelled; the function's own later reads are)
+			ex.ncell++
+			id := ex.ncell
+			st.cells[id] = sv
+			st.cellType = copyCellTypes(st.cellType)
+			st.cellType[id] = p.Type()
+			base = Val{Origin: &Loc{Cell: id, Pointee: p.Type()}}
+			st.regs[p] = base
+		}
 		if base.Origin != nil {
 			// element of the slice value stored in a local variable: stores update that variable
 			nl := *base.Origin
@@ -1592,23 +1643,35 @@ func (ex *Ex) mapUpdate(fr *Frame, st *State, x *ssa.MapUpdate) {
 
 // ---------------- type invariants ----------------
 
-func (ex *Ex) typeInvFor(t types.Type) (*TypeInv, types.Type) {
+// activeProp: a clause scoped to properties is active when no property filter is set or one matches.
+func (ex *Ex) activeProps(ps []string) bool {
+	if len(ps) == 0 || ex.Props == nil {
+		return true
+	}
+	for _, p := range ps {
+		if ex.Props[p] {
+			return true
+		}
+	}
+	return false
+}
+
+func (ex *Ex) typeInvsFor(t types.Type) ([]*TypeInv, types.Type) {
 	// t is the struct's named type or a pointer to it
 	if p, ok := t.Underlying().(*types.Pointer); ok {
 		t = p.Elem()
 	}
 	t = deepUnalias(t)
-	if ti, ok := ex.W.TypeInvs[t.String()]; ok {
-		return ti, t
+	var out []*TypeInv
+	for _, ti := range ex.W.TypeInvs[t.String()] {
+		if ex.activeProps(ti.Props) {
+			out = append(out, ti)
+		}
 	}
-	return nil, nil
+	return out, t
 }
 
-func (ex *Ex) typeInvTerm(fr *Frame, st *State, t types.Type, ref *T) *T {
-	ti, named := ex.typeInvFor(t)
-	if ti == nil {
-		return nil
-	}
+func (ex *Ex) oneTypeInvTerm(fr *Frame, st *State, ti *TypeInv, named types.Type, ref *T) *T {
 	env := ex.newEnv(fr, st)
 	env.pkgName = ti.PkgName
 	env.vars["self"] = SV{T: ref, Ty: SType{G: types.NewPointer(named)}}
@@ -1618,6 +1681,23 @@ func (ex *Ex) typeInvTerm(fr *Frame, st *State, t types.Type, ref *T) *T {
 		return nil
 	}
 	return tt
+}
+
+func (ex *Ex) typeInvTerm(fr *Frame, st *State, t types.Type, ref *T) *T {
+	tis, named := ex.typeInvsFor(t)
+	if len(tis) == 0 {
+		return nil
+	}
+	var cs []*T
+	for _, ti := range tis {
+		if tt := ex.oneTypeInvTerm(fr, st, ti, named, ref); tt != nil {
+			cs = append(cs, tt)
+		}
+	}
+	if len(cs) == 0 {
+		return nil
+	}
+	return And(cs...)
 }
 
 func (ex *Ex) assumeTypeInvIf(fr *Frame, st *State, t types.Type, v *T, cond *T) {
@@ -1631,16 +1711,22 @@ func (ex *Ex) assumeTypeInvIf(fr *Frame, st *State, t types.Type, v *T, cond *T)
 }
 
 func (ex *Ex) assertTypeInv(fr *Frame, st *State, t types.Type, ref *T) {
-	ti, _ := ex.typeInvFor(t)
-	if ti == nil {
-		return
+	tis, named := ex.typeInvsFor(t)
+	for k, ti := range tis {
+		inv := ex.oneTypeInvTerm(fr, st, ti, named, ref)
+		if inv == nil {
+			continue
+		}
+		name := fmt.Sprintf("%s#inv.%s", ex.topPrefix(fr), shortTypeName(t))
+		if k > 0 {
+			name += fmt.Sprintf(".%d", k+1)
+		}
+		props := ex.safetyProps(fr)
+		if len(ti.Props) > 0 {
+			props = ti.Props
+		}
+		ex.oblige(fr, st, name, "typeinv", props, "type invariant of freshly built "+ex.W.shortType(t)+": "+ti.Text, inv, token.NoPos)
 	}
-	inv := ex.typeInvTerm(fr, st, t, ref)
-	if inv == nil {
-		return
-	}
-	name := fmt.Sprintf("%s#inv.%s", ex.topPrefix(fr), shortTypeName(t))
-	ex.oblige(fr, st, name, "typeinv", ex.safetyProps(fr), "type invariant of freshly built "+ex.W.shortType(t)+": "+ti.Text, inv, token.NoPos)
 }
 
 func (ex *Ex) topPrefix(fr *Frame) string {
